@@ -559,6 +559,10 @@ func runCase(c Case, off map[string]bool, dir string, verbose bool) (res caseRes
 			if r := recover(); r != nil {
 				st := string(debug.Stack())
 				site := lib.PanicSite(st)
+				if repo := os.Getenv("VERIF_REPO"); repo != "" {
+					// a scratch worktree is not under /repo: keep the key independent of its location
+					site = strings.TrimPrefix(site, strings.TrimSuffix(repo, "/")+"/")
+				}
 				x.violation("panic@"+site, fmt.Sprintf("Go panic during %s: %v", what, r))
 				x.res.Aborted = "panic during " + what
 				ok = false
